@@ -25,6 +25,9 @@ pub struct TimedOp {
     pub token: u64,
     pub timeout: Option<u64>,
     pub spec: OpSpec,
+    /// searches only: run through the PagedResults adapter with this page size (the per-item
+    /// timeout applies to a paged search exactly as to a plain one)
+    pub paged: Option<i32>,
 }
 
 fn encode_behaviour(op: &TimedOp) -> String {
@@ -55,6 +58,44 @@ async fn timing_server(mut server: ServerEnd) -> HashMap<u64, i64> {
         let b = field.split(',').find_map(|p| p.strip_prefix("b=")).unwrap_or("d0").to_string();
         let id = m.id;
         match &m.op {
+            Req::Search { .. } if m.controls.as_ref().map(|cs| cs.iter().any(|c| c.oid == crate::lanes::c13::PAGED_OID.as_bytes())).unwrap_or(false) => {
+                use crate::lanes::c13::{paged_value, parse_paged, PAGED_OID};
+                use crate::msg::{CritEnc, RespCtl};
+                let parts: Vec<String> = b.trim_start_matches('g').split(':').map(|s| s.to_string()).collect();
+                let (size, cookie) = m.controls.as_ref().and_then(|cs| cs.iter().find(|c| c.oid == PAGED_OID.as_bytes())).and_then(|c| c.val.as_ref()).and_then(|v| parse_paged(v)).unwrap_or((1, vec![]));
+                let off: usize = String::from_utf8_lossy(&cookie).parse().unwrap_or(0);
+                let size = size.max(1) as usize;
+                let tx = tx.clone();
+                tokio::spawn(async move {
+                    let n_items = parts.len() - 1;
+                    let end = (off + size).min(n_items);
+                    for k in off..end {
+                        let d: u64 = match parts[k].parse() {
+                            Ok(d) => d,
+                            Err(_) => return,
+                        };
+                        if d > 0 {
+                            tokio::time::sleep(Duration::from_millis(d)).await;
+                        }
+                        tx.send(&ber::encode_min(&resp_node(id, &Resp::Entry { dn: format!("e={}.{},dc=x", tok, k).into_bytes(), attrs: vec![] }, None)));
+                    }
+                    if end < n_items || (end == n_items && off < end && n_items > 0 && false) {
+                        // page boundary: the page's result carries the cookie for the next one, at once
+                        let c = RespCtl { oid: PAGED_OID.into(), crit: CritEnc::Absent, val: Some(paged_value(0, end.to_string().as_bytes())) };
+                        tx.send(&ber::encode_min(&resp_node(id, &Resp::Done(Res::ok("page")), Some(&[c]))));
+                    } else {
+                        let d: u64 = match parts[n_items].parse() {
+                            Ok(d) => d,
+                            Err(_) => return, // 'x' = never
+                        };
+                        if d > 0 {
+                            tokio::time::sleep(Duration::from_millis(d)).await;
+                        }
+                        let c = RespCtl { oid: PAGED_OID.into(), crit: CritEnc::Absent, val: Some(paged_value(0, b"")) };
+                        tx.send(&ber::encode_min(&resp_node(id, &Resp::Done(Res::ok(&format!("t:{}:done", tok))), Some(&[c]))));
+                    }
+                });
+            }
             Req::Search { .. } => {
                 let parts: Vec<String> = b.trim_start_matches('g').split(':').map(|s| s.to_string()).collect();
                 let tx = tx.clone();
@@ -150,7 +191,13 @@ async fn run_op(ldap: &mut Ldap, op: &TimedOp) -> Vec<(u64, Ev)> {
             evs.push((ms(t0), e));
         }
         OpSpec::Search { .. } => {
-            let st = Caught::new(ldap.streaming_search(&dn, Scope::Subtree, "(a=b)", vec!["*"])).await;
+            let st = match op.paged {
+                None => Caught::new(ldap.streaming_search(&dn, Scope::Subtree, "(a=b)", vec!["*"])).await,
+                Some(p) => {
+                    let adapters: Vec<Box<dyn ldap3::adapters::Adapter<'static, &str, Vec<&str>>>> = vec![Box::new(ldap3::adapters::PagedResults::new(p))];
+                    Caught::new(ldap.streaming_search_with(adapters, &dn, Scope::Subtree, "(a=b)", vec!["*"])).await
+                }
+            };
             let mut st = match st {
                 Ok(Ok(s)) => s,
                 Ok(Err(ldap3::LdapError::Timeout { .. })) => {
@@ -208,7 +255,7 @@ fn expected(op: &TimedOp) -> (Vec<(u64, Ev)>, bool) {
     let tok = op.token;
     let mut evs = vec![];
     let mut tie = false;
-    let op = &TimedOp { token: op.token, timeout: effective(op.timeout), spec: op.spec.clone() };
+    let op = &TimedOp { token: op.token, timeout: effective(op.timeout), spec: op.spec.clone(), paged: op.paged };
     if op.timeout == Some(0) {
         // deadline "now": no response can have arrived; a search does not even start
         return (vec![(0, Ev::Timeout)], false);
@@ -300,7 +347,8 @@ pub fn gen_op(rng: &mut Rng, token: u64) -> TimedOp {
         OpSpec::Search { gaps, done_gap }
     };
     let timeout = if huge { Some(*rng.pick(&[u64::MAX, u64::MAX - 1, HUGE])) } else { timeout };
-    TimedOp { token, timeout, spec }
+    let paged = if matches!(spec, OpSpec::Search { .. }) && rng.chance(1, 4) { Some(1 + rng.below(3) as i32) } else { None };
+    TimedOp { token, timeout, spec, paged }
 }
 
 fn run_case(i: u64, rng: &mut Rng, rep: &mut Report, verbose: bool) {
@@ -351,7 +399,7 @@ fn run_case(i: u64, rng: &mut Rng, rep: &mut Report, verbose: bool) {
         let mut reuse = None;
         if table_after.1.is_empty() {
             ldap.verif_set_last_id(0);
-            let op = TimedOp { token: reuse_tok, timeout: None, spec: OpSpec::Single { delay: Some(0) } };
+            let op = TimedOp { token: reuse_tok, timeout: None, spec: OpSpec::Single { delay: Some(0) }, paged: None };
             let evs = world::watchdog(run_op(&mut ldap, &op)).await.unwrap_or_default();
             reuse = Some((ldap.last_id(), evs));
         }
